@@ -1,6 +1,7 @@
 (* C03 -- (1) the general positive theorem for the 2-d (Levy copula) coupling with JOINT corner masses (telescoping_joint): for any
    rectangle mass additive per coordinate and non-negative away from the origin and any two admissible axes, every coarse state receives
-   exactly its level-(l-1) rate; (2) the LAW of the 2-d coupling as a function of the coupling uniform, for the code as it is
+   exactly its level-(l-1) rate; [ONE mass2 plays both the rate and the corner measure here; the code has two: Proofs/C03_TwoMeasures.v
+   restates it with both and the hypothesis same_measure, and Properties/C03.v states only that version (audit4 B1)]; (2) the LAW of the 2-d coupling as a function of the coupling uniform, for the code as it is
    (coupling_state2 / prob_to2, margin masses) and for the repaired rule (coupling_state2_joint / prob_to2_joint); (3) 'same generator'
    packaging for the 1-d coupling over any number of levels. *)
 From Coq Require Import ZArith QArith Qabs List Bool Lia Lqa.
